@@ -13,7 +13,8 @@ def decodeCtx (t : List String) : Option ReqCtx := do
   let gz ← boolOf (kvD t "gzip" "0")
   let rulesRaw ← bytesList (kvD t "rules" "~")
   let rules ← rulesRaw.mapM C16.parseRule
-  some { method := m, reqClose := rcl, solicitedGzip := gz, rules := rules }
+  let rm ← natOf (kvD t "reqminor" "1")
+  some { method := m, reqClose := rcl, solicitedGzip := gz, rules := rules, reqMinor := rm }
 
 def decodeResp (t : List String) : Option OriginResp := do
   let minor ← natOf (kvD t "minor" "1")
@@ -27,8 +28,6 @@ def encodeFraming : Framing → String
   | .cl n => s!"cl:{n}"
   | .chunked ts => s!"chunked:{hexList ts}"
   | .eof => "eof"
-  | .unframed => "unframed"
-  | .unterminatedHead => "unterminated"
 
 def encodeBody : BodyXform → String
   | .same => "same" | .gunzip => "gunzip" | .dropped => "dropped"
